@@ -40,7 +40,7 @@ MEMBER_VALUES = ["text", 3, 2.5, True, None, [1, "a", None, {"k": [1.5]}], {"typ
 
 def generate(rng, tier):
     nf = rng.choice([0, 1, 2, 3, 5, 8])
-    if rng.random() < 0.004:
+    if rng.random() < 0.009:
         nf = rng.choice([1001, 1500, 2500])      # size-dependent writer/reader paths
     # incl. names that are not in Unicode normal form (decomposed accent, compatibility characters): distinct keys stay distinct and unchanged
     keys = rng.sample(["id", "name", "pop", "ratio", "flag", "a b", "ünï", "e\u0301", "\u00e9", "\u00b5m", "\ufb01x"], rng.randint(0, 5))
